@@ -31,6 +31,23 @@ fn arg_value(t: &mut Tape<'_>, a: &ArgSpec) -> String {
 }
 
 fn token<'a>(t: &mut Tape<'_>, level: &mut &'a CmdSpec, out: &mut Argv) {
+    let before = out.len();
+    token_inner(t, level, out);
+    // values of OS-string arguments sometimes end in a byte that is not UTF-8
+    if t.chance(1, 10) {
+        let lvl: &CmdSpec = level;
+        let os_arg = lvl.args.iter().any(|a| matches!(a.parser, ParserSpec::OsStr | ParserSpec::PathBuf));
+        if os_arg && out.len() > before {
+            if let Some(last) = out.last_mut() {
+                if !last.is_empty() {
+                    last.push(0xff);
+                }
+            }
+        }
+    }
+}
+
+fn token_inner<'a>(t: &mut Tape<'_>, level: &mut &'a CmdSpec, out: &mut Argv) {
     let c: &CmdSpec = level;
     let flags: Vec<&ArgSpec> = c.args.iter().filter(|a| !a.is_positional()).collect();
     let choice = t.weighted(&[6, 5, 3, 4, 3, 1, 1, 1, 1, 1]);
